@@ -197,6 +197,12 @@ def generate(
         else:
             e.filename = getattr(open_yaml_file, "name", None)
             raise
+    except RecursionError as e:
+        name = getattr(open_yaml_file, "name", None)
+        raise DataGenError(
+            "The recipe is nested too deeply to be executed",
+            name if isinstance(name, str) else None,
+        ) from e
 
     if generate_continuation_file:
         save_continuation_yaml(runtime_context, generate_continuation_file)
